@@ -295,8 +295,9 @@ def initial_passage_family(rep, n):
             if r.random() < 0.3 and names:
                 lines.append("@start " + r.choice(names))
             for nm in names:
-                lines += [":: " + nm + r.choice(["", " ^t", " // c"]), r.choice(["hello", "{1}", "~ x = 1"]),
-                          r.choice(["", "+ [go] -> " + r.choice(names)])]
+                par = r.choice(["", "", "", "(x)", "(x=1)", "(x=)", "(x, y=x)"])
+                lines += [":: " + nm + par + r.choice(["", " ^t", " // c"]), r.choice(["hello", "{1}", "~ x = 1"]),
+                          r.choice(["", "+ [go] -> " + r.choice(names) + r.choice(["", "", "()", "(1)"])])]
             text = "\n".join(lines) + "\n"
         elif k < 0.75:
             text = fam_total.gen_sequence(r, 6)
@@ -326,6 +327,18 @@ def initial_passage_family(rep, n):
         for key, p in story["passages"].items():
             if p.get("id") != key:
                 problems.append(f"passage keyed {key!r} has id {p.get('id')!r}")
+        # "so the engine can load it": constructing an engine enters the initial passage; that must not fail for a reason the
+        # compiler could have seen (arguments the initial passage's parameters do not accept, a default that is no expression)
+        try:
+            from bardic.runtime.engine import BardEngine
+            import copy as _copy
+            with quiet(), time_limit(10):
+                BardEngine(_copy.deepcopy(story))
+        except ValueError as e:
+            if "Required parameter" in str(e) or "invalid syntax" in str(e) or "Error calling passage" in str(e) and "not defined" not in str(e):
+                problems.append(f"the engine cannot load the compiled story: {str(e)[:140]}")
+        except BaseException:  # noqa  (author code failing at run time is not C12's matter)
+            pass
         try:
             if json.loads(json.dumps(story, allow_nan=False)) != story:
                 problems.append("the story changes in a JSON round trip")
